@@ -163,6 +163,7 @@ def main(argv=None):
     ap.add_argument("--no-evidence", action="store_true")
     a = ap.parse_args(argv)
     tier = a.tier if a.tier in ("quick", "thorough") else "quick"
+    os.environ["VERIF_TIER"] = tier          # visible to harness code in the forked workers
     seed = int(os.environ.get("VERIF_SEED", "0") or 0)
     if a.replay:
         return replay(a.prop, a.replay)
